@@ -144,4 +144,4 @@ def to_item(rec):
                 if lo <= a and b <= hi:
                     tr[i] = to
         dfa.append({'en': bool(st['end']), 'un': bool(st['unr']), 'rec': st['rec'], 'tr': tr})
-    return {'id': rec['id'], 'K': K, 'segs': [list(s) for s in segs], 'terms': terms, 'dfa': dfa}
+    return {'id': rec['id'], 'K': K, 'segs': [list(s) for s in segs], 'terms': terms, 'dfa': dfa, 'pred': sum(rec.get('preds', [])) if rec.get('preds') else len(dfa)}
